@@ -347,6 +347,9 @@ class Model:
             L.append('    @abc.abstractmethod')
             L.append('    def _abstract_thing(self):')
             L.append('        pass')
+        elif c.get('keep_abstract'):
+            # stays abstract: inherits the unimplemented method
+            pass
         elif any(self.cspecs.get(b, {}).get('abstractmethod')
                  for b in self._all_bases(c)):
             L.append('    def _abstract_thing(self):')
@@ -481,7 +484,7 @@ class Model:
     # -- introspection helpers for oracles ------------------------------------------
     def is_abstract(self, name):
         c = self.cspecs[name]
-        if c.get('abc') or c.get('abstractmethod'):
+        if c.get('abc') or c.get('abstractmethod') or c.get('keep_abstract'):
             return True
         return False
 
